@@ -3,6 +3,7 @@ package main
 import (
 	"fmt"
 	"go/token"
+	"go/types"
 	"strings"
 
 	"golang.org/x/tools/go/ssa"
@@ -189,13 +190,23 @@ func checkB1(c *Ctx, pr *prioRoles) {
 func checkB2(c *Ctx, pr *prioRoles) {
 	p := pr.p
 	ord := map[string]int{}
-	for _, cs := range p.CallSites(pr.sendFn) {
-		fn := cs.Parent()
-		fk := p.FnKey(fn)
-		ord[fk]++
-		key := fmt.Sprintf("%s#send.%d", fk, ord[fk])
-		argKey := p.Sym(cs.Common().Args[pr.sendPrioIdx]).StripInst().String()
-		ok := false
+	isTacticWriter := func(in ssa.Instruction) bool {
+		if w, ok := p.mapWriteOf(nil, in); ok && w.Field == "tactic" {
+			return true
+		}
+		if call, ok := in.(*ssa.Call); ok {
+			if cal := p.Callee(call); cal != nil && p.IsProduct(cal) && p.mayWriteMapField(cal, "tactic") {
+				return true
+			}
+		}
+		return false
+	}
+	// guarded: the call cs (of the sending function, or of a helper that leads to it) is dominated by
+	// a test tactic[key] != 0 with no write of tactic in between; keyV is the priority the item is
+	// sent under, as a value of cs's function
+	var guarded func(cs ssa.CallInstruction, keyV ssa.Value, depth int) (bool, string)
+	guarded = func(cs ssa.CallInstruction, keyV ssa.Value, depth int) (bool, string) {
+		argKey := p.Sym(keyV).StripInst().String()
 		why := "no dominating test tactic[" + argKey + "] != 0"
 		for _, e := range InstrDomEdges(cs) {
 			iff := e.From.Instrs[len(e.From.Instrs)-1].(*ssa.If)
@@ -215,23 +226,54 @@ func checkB2(c *Ctx, pr *prioRoles) {
 				why = fmt.Sprintf("guard tests tactic[%s] but the item is sent under %s", r.Args[1], argKey)
 				continue
 			}
-			bad := p.writersBetween(e, cs, func(in ssa.Instruction) bool {
-				if w, ok := p.mapWriteOf(nil, in); ok && w.Field == "tactic" {
-					return true
-				}
-				if call, ok := in.(*ssa.Call); ok {
-					if cal := p.Callee(call); cal != nil && p.IsProduct(cal) && p.mayWriteMapField(cal, "tactic") {
-						return true
-					}
-				}
-				return false
-			})
-			if bad != "" {
+			if bad := p.writersBetween(e, cs, isTacticWriter); bad != "" {
 				why = "tactic may be written at " + bad + " between the guard and the send"
 				continue
 			}
-			ok = true
+			return true, ""
 		}
+		// the send sits in a private helper (forward(item, opened, priority)): every call of the
+		// helper is guarded, the key being the helper's parameter, and the helper does not write the
+		// allotment before it sends
+		fn := cs.Parent()
+		par, isPar := stripChangeType(keyV).(*ssa.Parameter)
+		obj, _ := fn.Object().(*types.Func)
+		if !isPar || depth > 2 || obj == nil || obj.Exported() {
+			return false, why
+		}
+		for _, b := range fn.Blocks {
+			for _, in := range b.Instrs {
+				if in == ssa.Instruction(cs) {
+					break
+				}
+				if isTacticWriter(in) && reaches(b, cs.Block()) {
+					return false, "tactic may be written at " + p.InstrPos(in) + " before the send"
+				}
+			}
+		}
+		sites := p.CallSites(p.Norm(fn))
+		if len(sites) == 0 {
+			return false, why
+		}
+		idx := paramIndex(fn, par)
+		for _, up := range sites {
+			if _, isGo := up.(*ssa.Go); isGo || idx < 0 || idx >= len(up.Common().Args) {
+				return false, why
+			}
+			if okUp, whyUp := guarded(up, up.Common().Args[idx], depth+1); !okUp {
+				return false, whyUp + " (call at " + p.InstrPos(up) + ")"
+			}
+		}
+		return true, ""
+	}
+	for _, cs := range p.CallSites(pr.sendFn) {
+		fn := cs.Parent()
+		fk := p.FnKey(fn)
+		ord[fk]++
+		key := fmt.Sprintf("%s#send.%d", fk, ord[fk])
+		keyV := cs.Common().Args[pr.sendPrioIdx]
+		argKey := p.Sym(keyV).StripInst().String()
+		ok, why := guarded(cs, keyV, 0)
 		c.R.Check(ok, "B2", key, p.InstrPos(cs), "guarded by tactic["+argKey+"] != 0", "an item can be written to the output without allowance: "+why)
 	}
 }
